@@ -368,6 +368,45 @@ def run(ctx):
                 res.count("stored_bins_history_mode_%d" % mode)
             except Exception as ex:
                 res.oracle_failures.append(("a write path raised %r" % ex, {"history": hist, "lines": lines}))
+    # the set bins(..., one=False) returns belongs to the caller: changing it in place must not change later answers ----
+    for (a, b) in [(0, 5), (-3, 9), (M, M + 5), (M + 7, 3), (5, -1), (1, 10), (SIZES[0], SIZES[0] + 5)]:
+        first = B.bins(a, b, one=False)
+        keep = set(first)
+        if isinstance(first, set):
+            first.update({987654, 3})
+            first.discard(1)
+        again = B.bins(a, b, one=False)
+        res.evaluations += 1
+        if again != keep:
+            res.oracle_failures.append(("bins(..., one=False) answers differently after the set it returned earlier was changed "
+                                        "in place by the caller", {"start": a, "stop": b, "first": canon(keep), "again": canon(again)}))
+    # the module's own helpers (print_bin_sizes, with every boolean option flipped) do not disturb bins() ------------------
+    import contextlib
+    import inspect as _inspect
+    import io
+    probe = [(1, 1), (200000, 200000), (SIZES[1] - 1, SIZES[1] + 1), (1, M - 1)]
+    before = [canon(B.bins(a, b, one=o)) for a, b in probe for o in (True, False)]
+    for name in ("print_bin_sizes",):
+        fn = getattr(B, name, None)
+        if fn is None:
+            continue
+        try:
+            params = _inspect.signature(fn).parameters
+        except (TypeError, ValueError):
+            params = {}
+        calls = [{}] + [{k: (not v.default)} for k, v in params.items() if isinstance(v.default, bool)]
+        for kw in calls:
+            try:
+                with contextlib.redirect_stdout(io.StringIO()):
+                    fn(**kw)
+            except Exception:
+                pass
+            after = [canon(B.bins(a, b, one=o)) for a, b in probe for o in (True, False)]
+            res.evaluations += 1
+            if after != before:
+                res.oracle_failures.append(("bins() answers differently after a call of bins.%s(%s)" % (name, kw),
+                                            {"probe": probe, "before": before, "after": after}))
+                break
     f = Feature(seqid="c", start=".", end=".")
     if f.bin is not None:
         res.oracle_failures.append(("Feature without coordinates has a bin", {"bin": canon(f.bin)}))
